@@ -10,7 +10,7 @@ from fractions import Fraction
 
 import z3
 
-from . import api, findings, interp, models, registry
+from . import api, findings, interp, models, ops, registry
 from .core import (Engine, Infeasible, Opaque, PathEnd, PyRaise, SBool, SBytes, SInt, SReal, SText, Undecided,
                    concretize)
 
@@ -125,6 +125,7 @@ def explore(hname, params, opts):
             aborted = f"task timeout {task_timeout}s"
             break
         eng = Engine(decisions, stats)
+        ops.CUR_ENGINE = eng
         if obl_timeout:
             eng.OBL_TIMEOUT_MS = obl_timeout
         eng.known_findings = known
